@@ -32,6 +32,7 @@ let hex_of_bytes (l : n list) : string =
   if l = [] then "-" else String.concat "" (List.map (fun b -> Printf.sprintf "%02x" (int_of_n b land 255)) l)
 let bytes_of_string (s : string) : n list = List.init (String.length s) (fun i -> n_of_int (Char.code s.[i]))
 
+let b2s b = if b then "1" else "0"
 let split_ws s = List.filter (fun x -> x <> "") (String.split_on_char ' ' s)
 let split_on c s = if s = "-" || s = "" then [] else String.split_on_char c s
 
@@ -192,6 +193,23 @@ let () =
         Buffer.add_string buf (" keys=" ^ (String.concat "/" (List.map (fun kk -> dec_of_n kk.k_id ^ ":" ^ hex_of_bytes kk.k_secret) !keys)));
         Buffer.contents buf
       end);
+  (* xferm <env> stream=<hex> cuts=<i.j.k|-> anon=<0|1> uidfn=<uid|->: the transport model on one cutting of the stream into
+     reads (after every read the answers are written out and the dispatch status is recomputed) *)
+  reg "xferm" (fun toks ->
+      let e = env_of_toks toks in
+      let stream = bytes_of_hex (field toks "stream") in
+      let cuts = List.map int_of_string (split_on '.' (field toks "cuts")) in
+      let rec split prev cs s = match cs with
+        | [] -> [s]
+        | c :: r -> let n = c - prev in
+            let rec take k l = if k = 0 then ([], l) else (match l with [] -> ([], []) | x :: t -> let (a, b) = take (k - 1) t in (x :: a, b)) in
+            let (a, b) = take n s in a :: split c r b in
+      let chunks = split 0 cuts stream in
+      let te = { t_env = e; t_allow_anonymous = (field toks "anon" = "1");
+                 t_unix_user_fn = (match field toks "uidfn" with "-" -> None | u -> let uu = n_of_dec u in Some (fun x -> x = uu)) } in
+      let (t, consumed) = trun te transport_init (drive chunks) in
+      Printf.sprintf "auth=%s rec=%s disc=%s id=%s loader=%s consumed=%d"
+        (b2s t.tr_authenticated) (b2s t.tr_recovered) (b2s t.tr_disconnected) (creds_str (get_identity t.tr_auth)) (hex_of_bytes t.tr_loader) (List.length consumed));
   reg "sha1m" (fun [h] -> String.concat "" (List.map (fun b -> String.make 1 (Char.chr (int_of_n b))) (hex_encode (sha1 (bytes_of_hex h)))));
   reg "hexdecm" (fun [h] -> let (d, e) = hex_decode (bytes_of_hex h) in string_of_int (int_of_n e) ^ " " ^ hex_of_bytes d);
   reg "uidstrm" (fun [h] -> match parse_ulong (bytes_of_hex h) with
